@@ -1,6 +1,7 @@
 package yqlib
 
 import (
+	"container/list"
 	"fmt"
 )
 
@@ -37,16 +38,20 @@ func flattenOp(_ *dataTreeNavigator, context Context, expressionNode *Expression
 	log.Debugf("flatten Operator")
 	depth := expressionNode.Operation.Preferences.(flattenPreferences).depth
 
+	var results = list.New()
 	for el := context.MatchingNodes.Front(); el != nil; el = el.Next() {
 		candidate := el.Value.(*CandidateNode)
 		if candidate.Kind != SequenceNode {
 			return Context{}, fmt.Errorf("only arrays are supported for flatten")
 		}
 
-		flatten(candidate, depth)
+		// flatten a copy: the operator must not modify the node it reads
+		flattened := candidate.Copy()
+		flatten(flattened, depth)
+		results.PushBack(flattened)
 
 	}
 
-	return context, nil
+	return context.ChildContext(results), nil
 
 }
